@@ -269,6 +269,49 @@ pub fn run_c05(rep: &mut Report) {
 
     clean_run_then_fault(rep, "C05", frame_expect);
 
+    // ---- add_word takes &self and the type is Sync: one decoder shared by reference between threads must judge every word by
+    //      the rule, whatever the other threads are feeding it at the same time
+    {
+        let shared = crate::scan::fresh_ps2();
+        let threads = crate::scan::n_threads().max(4);
+        let per_thread: u32 = if rep.thorough() { 4_000_000 } else { 400_000 };
+        // (if a tree makes the decoder !Sync, that is C20's matter: the sharing is then simply not attempted here)
+        #[allow(unused_imports)]
+        use crate::scan::{NotShared, SharedIfSync, Shareable};
+        let work = move |d: &Ps2Decoder, t: usize| -> Vec<(u16, String, String)> {
+            let mut out = Vec::new();
+            let _ = guarded(|| {
+                let mut x = (t as u32).wrapping_mul(0x9E37_79B9) | 1;
+                // each thread keeps to a handful of valid frames of its own plus some corrupt ones
+                let mine: Vec<u16> = (0..6u32).map(|i| encode_frame((t as u32 * 37 + i * 11) as u8)).chain([0x7FF, encode_frame(t as u8) ^ 0x200]).collect();
+                for _ in 0..per_thread {
+                    x ^= x << 13;
+                    x ^= x >> 17;
+                    x ^= x << 5;
+                    let w = mine[x as usize % mine.len()];
+                    let got = d.add_word(w);
+                    let want = frame_expect(w);
+                    if got != want && out.len() < 3 {
+                        out.push((w, frame_res_str(&want), frame_res_str(&got)));
+                    }
+                }
+            });
+            out
+        };
+        let bad: Vec<Vec<(u16, String, String)>> = (&Shareable(&shared)).on_threads(threads, &work).unwrap_or_default();
+        rep.evaluations += threads as u64 * per_thread as u64;
+        rep.count("add_word_calls_on_one_decoder_shared_between_threads", threads as u64 * per_thread as u64);
+        for v in bad {
+            for (w, want, got) in v {
+                rep.violate(
+                    format!("C05|add_word|shared-between-threads|class={}|want={}|got={}", frame_class(w), want, if got.starts_with("Ok") { "Ok(other byte)".to_string() } else { got.clone() }),
+                    format!("one Ps2Decoder shared by reference between {} threads: add_word(0x{:03X}) ({}) returned {}; the rule gives {}", threads, w, frame_class(w), got, want),
+                    J::obj().with("kind", J::s("concurrent-objects")).with("threads", J::u(threads as u64)).with("word", J::u(w as u64)),
+                );
+            }
+        }
+    }
+
     // ---- Keyboard::add_word = frame rule ∘ scancode decoder, in every scancode prefix state
     // Keyboard::add_word feeds the scancode stage with every byte in every prefix state: run it in a child process, so
     // that a tree whose scancode decoder aborts on garbage does not take this (frame-rule) check down with it
